@@ -6,18 +6,18 @@ package grpc
 // ---- wire conversion (C10): every field the commitments cover arrives unchanged in the protobuf message; the global
 // index is sent as the 32-byte big-endian form of the same canonical value the commitments hash.
 
-//@ func leafTypeToProto
+//@ func leafTypeToProto (leafType)
 //@   trusted
 //@   modifies nothing
 
-//@ func convertToProtoSiblings
+//@ func convertToProtoSiblings (siblings)
 //@   props C10
 //@   modifies nothing
 //@   ensures[one-per-sibling-in-order] len(result) == 32 && forall(k, 0, len(result), result[k] != nil && len(result[k].Value) == 32 && seq(result[k].Value) == hb(siblings[k]))
 //@   loop 0 invariant 0 <= rangeindex + 1 && rangeindex + 1 <= 32 && len(protoSiblings) == 32 && off(protoSiblings) == 0 && fresh(ref(protoSiblings))
 //@   loop 0 invariant forall(k, 0, rangeindex + 1, protoSiblings[k] != nil && fresh(protoSiblings[k]) && len(protoSiblings[k].Value) == 32 && seq(protoSiblings[k].Value) == hb(siblings[k]))
 
-//@ func convertToProtoBridgeExit
+//@ func convertToProtoBridgeExit (be)
 //@   props C10
 //@   requires be != nil ==> be.TokenInfo != nil
 //@   modifies nothing
@@ -27,7 +27,7 @@ package grpc
 //@   ensures[metadata] (be != nil && len(be.Metadata) == 32) ==> result.Metadata != nil && len(result.Metadata.Value) == 32 && seq(result.Metadata.Value) == hb(hashOf(seq(be.Metadata)))
 //@   ensures[no-metadata] (be != nil && len(be.Metadata) == 0) ==> result.Metadata == nil
 
-//@ func convertToProtoImportedBridgeExit
+//@ func convertToProtoImportedBridgeExit (ibe)
 //@   props C10 C19
 //@   requires ibe != nil ==> ibe.GlobalIndex != nil && (ibe.BridgeExit != nil ==> ibe.BridgeExit.TokenInfo != nil)
 //@   requires (ibe != nil && typeIs(ibe.ClaimData, *types.ClaimFromMainnnet)) ==> cast(ibe.ClaimData, *types.ClaimFromMainnnet).ProofLeafMER != nil && cast(ibe.ClaimData, *types.ClaimFromMainnnet).ProofGERToL1Root != nil && cast(ibe.ClaimData, *types.ClaimFromMainnnet).L1Leaf != nil && cast(ibe.ClaimData, *types.ClaimFromMainnnet).L1Leaf.Inner != nil
@@ -57,13 +57,13 @@ package grpc
 //@   ensures wireCert == in.Certificate
 //@   ensures result1 == nil ==> result0 != nil && result0.CertificateId != nil && result0.CertificateId.Value != nil
 
-//@ func convertAggchainData
+//@ func convertAggchainData (aggchainData)
 //@   props C10
 //@   modifies nothing
 //@   ensures[undefined-refused] aggchainData == nil ==> result1 != nil && result0 == nil
 //@   ensures[signature-unchanged] typeIs(aggchainData, *types.AggchainDataSignature) ==> result1 == nil && result0 != nil && typeIs(result0.Data, *v1types.AggchainData_Signature) && cast(result0.Data, *v1types.AggchainData_Signature).Signature != nil && cast(result0.Data, *v1types.AggchainData_Signature).Signature.Value == cast(aggchainData, *types.AggchainDataSignature).Signature
 
-//@ func (a *AgglayerGRPCClient) SendCertificate
+//@ func (a *AgglayerGRPCClient) SendCertificate (a, ctx, certificate)
 //@   props C10 C02
 //@   requires a != nil && a.cfg != nil && a.submissionService != nil && certificate != nil
 //@   requires forall(k, 0, len(certificate.BridgeExits), certificate.BridgeExits[k] != nil ==> certificate.BridgeExits[k].TokenInfo != nil)
@@ -84,7 +84,7 @@ package grpc
 // height, identity, status and exit roots of the headers returned here. Each of the four decided / in-progress wire
 // statuses maps to its own local status, everything else (pending, unspecified, unknown values) reads as Pending,
 // i.e. undecided; height, network, identity and roots are copied from the message.
-//@ func certificateStatusFromProto
+//@ func certificateStatusFromProto (status)
 //@   props C13 C02
 //@   modifies nothing
 //@   ensures[settled] (result == types.Settled) == (status == v1nodetypes.CertificateStatus_CERTIFICATE_STATUS_SETTLED)
@@ -93,7 +93,7 @@ package grpc
 //@   ensures[candidate] (result == types.Candidate) == (status == v1nodetypes.CertificateStatus_CERTIFICATE_STATUS_CANDIDATE)
 //@   ensures[anything-else-is-undecided] (result == types.Pending) == (status != v1nodetypes.CertificateStatus_CERTIFICATE_STATUS_SETTLED && status != v1nodetypes.CertificateStatus_CERTIFICATE_STATUS_IN_ERROR && status != v1nodetypes.CertificateStatus_CERTIFICATE_STATUS_PROVEN && status != v1nodetypes.CertificateStatus_CERTIFICATE_STATUS_CANDIDATE)
 
-//@ func convertProtoCertificateHeader
+//@ func convertProtoCertificateHeader (response)
 //@   props C13 C02
 //@   requires response != nil ==> (response.CertificateId != nil && response.CertificateId.Value != nil && response.NewLocalExitRoot != nil && response.Metadata != nil)
 //@   ensures[nothing-from-nothing] response == nil ==> result == nil
@@ -116,21 +116,21 @@ package grpc
 //@   ensures result1 != nil ==> result0 == nil
 //@   ensures result1 == nil ==> result0 != nil && (result0.CertificateHeader != nil ==> (result0.CertificateHeader.CertificateId != nil && result0.CertificateHeader.CertificateId.Value != nil && result0.CertificateHeader.NewLocalExitRoot != nil && result0.CertificateHeader.Metadata != nil))
 
-//@ func (a *AgglayerGRPCClient) GetLatestSettledCertificateHeader
+//@ func (a *AgglayerGRPCClient) GetLatestSettledCertificateHeader (a, ctx, networkID)
 //@   props C13 C02
 //@   requires a != nil && a.networkStateService != nil && a.cfg != nil
 //@   ensures[error-means-nothing] result1 != nil ==> result0 == nil
 //@   assert call:GetLatestCertificateHeader arg1 != nil && arg1.NetworkId == networkID && arg1.Type == v1.LatestCertificateRequestType_LATEST_CERTIFICATE_REQUEST_TYPE_SETTLED
 //@   assert call:convertProtoCertificateHeader arg0 == response.CertificateHeader
 
-//@ func (a *AgglayerGRPCClient) GetLatestPendingCertificateHeader
+//@ func (a *AgglayerGRPCClient) GetLatestPendingCertificateHeader (a, ctx, networkID)
 //@   props C13 C02
 //@   requires a != nil && a.networkStateService != nil && a.cfg != nil
 //@   ensures[error-means-nothing] result1 != nil ==> result0 == nil
 //@   assert call:GetLatestCertificateHeader arg1 != nil && arg1.NetworkId == networkID && arg1.Type == v1.LatestCertificateRequestType_LATEST_CERTIFICATE_REQUEST_TYPE_PENDING
 //@   assert call:convertProtoCertificateHeader arg0 == response.CertificateHeader
 
-//@ func (a *AgglayerGRPCClient) GetCertificateHeader
+//@ func (a *AgglayerGRPCClient) GetCertificateHeader (a, ctx, certificateID)
 //@   props C13 C02
 //@   requires a != nil && a.networkStateService != nil && a.cfg != nil
 //@   ensures[error-means-nothing] result1 != nil ==> result0 == nil
